@@ -89,6 +89,8 @@ func (m *Model) Infer(t *syntax.Transaction) {
 			}
 		}
 		if debit == m.account {
+			// the credit account may just have been inferred
+			credit = t.Bookings[i].Credit.Extract()
 			if a, ok := m.inferAccount(t, &t.Bookings[i], credit); ok {
 				t.Bookings[i].Debit = a
 			}
